@@ -509,6 +509,10 @@ impl DbInner {
 			self.validate_change(*col, change)?;
 		}
 
+		// The transaction is validated, nothing is claimed yet.
+		#[cfg(pdb_verif)]
+		crate::verif::yield_point("commit_changes.after_validate");
+
 		// A commit that is going to be refused because a background worker failed must not
 		// claim value table entries or count tree dereferences first.
 		{
@@ -647,6 +651,10 @@ impl DbInner {
 				)?
 			}
 		}
+
+		// The change set is assembled (entries claimed, dereferences counted), nothing is queued yet.
+		#[cfg(pdb_verif)]
+		crate::verif::yield_point("commit_changes.before_commit_raw");
 
 		self.commit_raw(commit)
 	}
